@@ -75,6 +75,10 @@ def run(ctx):
             eff.append(pr)
         if eff and min(eff) > 2 and ctx.rng.random() < 0.7:
             x["prio"] = min(eff) - 1
+        # ids need to be unique among siblings only: the intruder may carry the local id of a task nested somewhere
+        nested_ids = sorted({p[-1] for p in tidx if len(p) > 1} - {p[0] for p in tidx})
+        if nested_ids and ctx.rng.random() < 0.35:
+            x["id"] = ctx.rng.choice(nested_ids)
         pos = ctx.rng.randint(0, len(ap2["tasks"]))
         if ap2.get("_nested") and x.get("effort"):
             # the intruder writes a value of its own for the innermost scenario and is declared first
@@ -94,7 +98,9 @@ def run(ctx):
             continue
         ta, tb = a["obs"]["scenarios"][0]["tasks"], b["obs"]["scenarios"][0]["tasks"]
         stats["compared"] += 1
-        stats["intruder_scheduled"] += 1 if tb.get("zzx", {}).get("sched") else 0
+        xid = [n["id"] for n in ap2["tasks"] if n["id"] not in {m["id"] for m in ap["tasks"]}][0]
+        stats["intruder_scheduled"] += 1 if tb.get(xid, {}).get("sched") else 0
+        stats["intruder_named_like_a_nested_task"] += 1 if xid != "zzx" else 0
         diff = {}
         for si, (sa, sb) in enumerate(zip(a["obs"]["scenarios"], b["obs"]["scenarios"])):
             ta, tb = sa["tasks"], sb["tasks"]
@@ -113,7 +119,7 @@ def run(ctx):
         violations.append({"no_input": True, "replay": common.write_replay(ctx, {"property": "C09", "kind": "proof obligation no longer checks; no failing input found", "failing_obligations": failing})})
     cov = {"obligations": nob, "discharged": ndis, "checker_cmd": "tools/coqbuild.sh (coqc 8.16.1 full .vo build)", "trusted_base": common.TRUSTED, "files": files,
            "traces_validated_against_impl": stats["compared"], "input_distribution": dict(stats),
-           "rule": "random core / sub-slot / dependency / limit / calendar projects, each scheduled with and without a random intruder (strictly lowest priority - mostly one below the lowest priority that the text gives any other task, directly or by inheritance through up to four levels of containers -, any effort, resource or team, optional pinned start, optional dependency ON other tasks, sometimes on a resource of its own that is away when the project begins, inserted at a random declaration position); projects with alternatives and two or three scenarios are compared in every scenario; pairs whose horizon differs are skipped (property hypothesis)",
+           "rule": "random core / sub-slot / dependency / limit / calendar projects, each scheduled with and without a random intruder (strictly lowest priority - mostly one below the lowest priority that the text gives any other task, directly or by inheritance through up to four levels of containers -, any effort, resource or team, optional pinned start, optional dependency ON other tasks, sometimes on a resource of its own that is away when the project begins, inserted at a random declaration position, in a third of the cases carrying the local id of a task nested in some container); projects with alternatives and two or three scenarios are compared in every scenario; pairs whose horizon differs are skipped (property hypothesis)",
            "samples": [{"project_with_intruder": projects.render(withx[0])[:1200]}]}
     common.finish(ctx, "proof", cov, violations,
                   ["the theorem is stated for the whole-slot model with the intruder declared last; other declaration positions and sub-slot projects are covered by the two-run comparison on the implementation"])
